@@ -61,7 +61,7 @@ CfgNx(inp, s, e) == [s EXCEPT !.st = "App", !.cfg = {<<e.at, e.at + inp.cfgLen>>
 AppOK(inp, s, e) ==
   /\ s.st = "App" /\ e.len = inp.appLen
   /\ IF inp.flags = "enc" THEN e.at = -1                                     \* the plaintext must not be in an encrypted image
-                          ELSE e.at = AppAt(inp) /\ e.padOk                   \* found exactly at initial load size - IVT offset
+                          ELSE e.at = AppAt(inp)                             \* found exactly at initial load size - IVT offset
 AppNx(inp, s, e) == [s EXCEPT !.st = IF inp.flags = "plain" THEN "Tail" ELSE "Csf"]
 
 (* ------------------------------------------------------------------ CSF *)
@@ -144,7 +144,7 @@ DecryptOK(inp, s, e) ==
   /\ BlocksOK(inp, s, e) /\ e.dataLen = SumN(e.blocks, 1)
   /\ e.macTag = 172 /\ e.nonceLen \in 7..13 /\ e.macBytes \in {4, 6, 8, 10, 12, 14, 16} /\ e.macBytes = inp.macLen
   /\ e.macLen = 8 + e.nonceLen + e.macBytes /\ DataRef(s, e, e.macLen) /\ CcmFits(e.nonceLen, e.dataLen)
-  /\ e.dekLen = inp.dekLen
+  /\ e.dekLen = inp.dekLen /\ e.dekKept /\ e.nonceKept                       \* a DEK / nonce given in the configuration is the one used
   /\ e.macOk                                                                 \* AES-CCM tag over the listed blocks under DEK / nonce verifies
   /\ e.plainOk                                                               \* and the decryption is the application given to the builder
 DecryptNx(inp, s, e) == [Step(s, e, e.macLen) EXCEPT !.macd = s.macd \cup Blocks(inp, e), !.secrets = s.secrets \ {e.key}]
@@ -188,7 +188,7 @@ ParseBackOK(inp, s, e) ==
   /\ e.bdStart = s.bd.start /\ e.bdLen = s.bd.len /\ e.plugin = s.bd.plugin
   /\ e.flags = FlagWord(inp.flags)
   /\ e.hasDcd = (inp.cfgKind = "dcd") /\ e.hasXmcd = (inp.cfgKind = "xmcd") /\ e.hasCsf = (inp.flags # "plain")
-  /\ e.appAt = AppAt(inp) /\ e.nCmds = s.nCmds
+  /\ e.appAt = AppAt(inp) /\ e.nCmds = s.nCmds /\ e.cStart = inp.start /\ e.cIvtOff = inp.ivtOff
   /\ e.ivtEq /\ e.bdEq /\ (e.cfgEq \/ Waived(inp, "xmcdMatch")) /\ e.appEq /\ e.csfEq /\ e.reexpEq
 ParseBackNx(inp, s, e) == [s EXCEPT !.st = "Done"]
 =============================================================================
